@@ -63,11 +63,11 @@ type CondRes struct {
 type Res struct {
 	Cls    string            `json:"cls"` // ok | err | panic
 	Err    string            `json:"err,omitempty"`
-	At     string            `json:"at,omitempty"`    // innermost non-runtime function of the panic
-	Repo   string            `json:"repo,omitempty"`  // innermost blackdagger function of the panic
-	Msg    string            `json:"msg,omitempty"`   // panic value
+	At     string            `json:"at,omitempty"`   // innermost non-runtime function of the panic
+	Repo   string            `json:"repo,omitempty"` // innermost blackdagger function of the panic
+	Msg    string            `json:"msg,omitempty"`  // panic value
 	Dag    *PDag             `json:"dag,omitempty"`
-	EnvSet map[string]string `json:"envset"`          // environment variables created / changed by the call
+	EnvSet map[string]string `json:"envset"`           // environment variables created / changed by the call
 	EnvDel []string          `json:"envdel,omitempty"` // ... removed by the call
 }
 
@@ -357,10 +357,10 @@ func paramTokens(s string) [][2]string {
 
 // Oracle is keyed by string; only strings for which some verdict is not the default are listed.
 type Oracle struct {
-	Cron map[string]int          `json:"cron"` // every string of the tree: 0 / 1 / 2
-	Sig  map[string]bool         `json:"sig"`  // strings that ARE valid signal names
+	Cron  map[string]int         `json:"cron"`  // every string of the tree: 0 / 1 / 2
+	Sig   map[string]bool        `json:"sig"`   // strings that ARE valid signal names
 	ReBad []string               `json:"rebad"` // strings with re: prefix that do not compile
-	Tok  map[string][][2]string  `json:"tok"`  // tokenisation of the params strings
+	Tok   map[string][][2]string `json:"tok"`   // tokenisation of the params strings
 }
 
 func oracleFor(t *Y, extraParams ...string) Oracle {
